@@ -48,9 +48,95 @@ type TypesCase struct {
 	// Compiled, if set, names a compiler-made config type (compiledTypes) used
 	// instead of the shape: embedded shapes reflect.StructOf cannot build.
 	Compiled string `json:"compiled,omitempty"`
-	Fill     uint64 `json:"fill"`    // seed of every fed value
-	SetPct   int    `json:"set_pct"` // share of leaves that receive input
-	DefPct   int    `json:"def_pct"` // share of leaves with a non-zero default (flag templates)
+	// Extra lists further config types served by the SAME source / decoder /
+	// mangler values in the same Run (object reuse); the main type is called at
+	// position MainAt among them.  Kind: retag (the main shape with other struct
+	// tags only), retype (same names, other leaf types), other (unrelated).
+	Extra  []ExtraType `json:"extra,omitempty"`
+	MainAt int         `json:"main_at,omitempty"`
+	Fill   uint64      `json:"fill"`    // seed of every fed value
+	SetPct int         `json:"set_pct"` // share of leaves that receive input
+	DefPct int         `json:"def_pct"` // share of leaves with a non-zero default (flag templates)
+}
+
+// ExtraType is one more config type of a reuse sequence.
+type ExtraType struct {
+	Kind  string      `json:"kind"`
+	Shape shape.Shape `json:"shape"`
+}
+
+// stepCases lists the calls of a case in order: each is a plain single-type
+// case; all of them are served by the same object.
+func stepCases(c TypesCase) []TypesCase {
+	main := c
+	main.Extra, main.MainAt = nil, 0
+	if len(c.Extra) == 0 {
+		return []TypesCase{main}
+	}
+	at := c.MainAt
+	if at < 0 {
+		at = 0
+	}
+	if at > len(c.Extra) {
+		at = len(c.Extra)
+	}
+	var out []TypesCase
+	for i, e := range c.Extra {
+		if i == at {
+			out = append(out, main)
+		}
+		sc := main
+		sc.Compiled = ""
+		sc.Shape = e.Shape
+		sc.Fill = c.Fill + uint64(i+1)*7919
+		out = append(out, sc)
+	}
+	if at == len(c.Extra) {
+		out = append(out, main)
+	}
+	return out
+}
+
+// runSeq runs the calls of a case in order through step (which closes over the
+// object under reuse) and folds their outcomes: the first violation wins.
+func runSeq(c TypesCase, object string, step func(sc TypesCase) (typesOutcome, *vrt.Verdict)) vrt.Verdict {
+	if js, jerr := json.Marshal(c); jerr == nil {
+		currentCase.Store(js)
+	}
+	steps := stepCases(c)
+	var total typesOutcome
+	seen := map[string]bool{}
+	for i, sc := range steps {
+		o, dv := step(sc)
+		if dv != nil {
+			return *dv
+		}
+		for _, l := range o.labels {
+			if !seen[l] {
+				seen[l] = true
+				total.labels = append(total.labels, l)
+			}
+		}
+		total.fed += o.fed
+		total.isErr = total.isErr || o.isErr
+		if o.viol != nil {
+			if len(steps) > 1 {
+				o.viol.msg = fmt.Sprintf("call %d of %d on the same %s: %s", i+1, len(steps), object, o.viol.msg)
+			}
+			total.viol = o.viol
+			break
+		}
+	}
+	if len(steps) > 1 {
+		total.labels = append(total.labels, fmt.Sprintf("reuse:calls=%d", len(steps)))
+		for _, e := range c.Extra {
+			if l := "reuse:" + e.Kind; !seen[l] {
+				seen[l] = true
+				total.labels = append(total.labels, l)
+			}
+		}
+	}
+	return finish(c, total)
 }
 
 // ---- deterministic per-path choices -------------------------------------------
@@ -381,9 +467,6 @@ func buildCase(c TypesCase) (T, pt reflect.Type, tmpl reflect.Value, v *vrt.Verd
 		return nil, nil, reflect.Value{}, &d
 	}
 	currentCheck.Store(check)
-	if js, jerr := json.Marshal(c); jerr == nil {
-		currentCase.Store(js)
-	}
 	if c.Compiled != "" {
 		ct, ok := compiledByName(c.Compiled)
 		if !ok {
@@ -417,11 +500,15 @@ func buildCase(c TypesCase) (T, pt reflect.Type, tmpl reflect.Value, v *vrt.Verd
 // ---- env ---------------------------------------------------------------------------
 
 func runTypesEnv(c TypesCase) vrt.Verdict {
+	src := &env.Source{} // ONE source value for every call of the case
+	return runSeq(c, "env.Source value", func(sc TypesCase) (typesOutcome, *vrt.Verdict) { return envStep(src, sc) })
+}
+
+func envStep(src *env.Source, c TypesCase) (o typesOutcome, dv *vrt.Verdict) {
 	_, pt, _, dv := buildCase(c)
 	if dv != nil {
-		return *dv
+		return o, dv
 	}
-	var o typesOutcome
 	leaves, nerr := flatLeaves(pt, "env")
 	if nerr != nil {
 		o.labels = append(o.labels, "names-unavailable")
@@ -464,12 +551,12 @@ func runTypesEnv(c TypesCase) vrt.Verdict {
 	var got reflect.Value
 	var err error
 	what := fmt.Sprintf("env source on %s with %v", pt, vars)
-	pi, hung := guard(what, func() { got, err = (&env.Source{}).Value(context.Background(), dials.NewType(pt)) })
+	pi, hung := guard(what, func() { got, err = src.Value(context.Background(), dials.NewType(pt)) })
 	o.viol, o.isErr = judge(what, pi, hung, got, err, pt)
 	if o.viol == nil && !o.isErr && countSet(got) >= o.fed && o.fed > 0 {
 		o.labels = append(o.labels, "all-fed-arrived")
 	}
-	return finish(c, o)
+	return o, nil
 }
 
 func judge(what string, pi *panicInfo, hung bool, got reflect.Value, err error, want reflect.Type) (*violation, bool) {
@@ -487,11 +574,16 @@ func judge(what string, pi *panicInfo, hung bool, got reflect.Value, err error, 
 // ---- flag / pflag ------------------------------------------------------------------
 
 func runTypesFlag(c TypesCase) vrt.Verdict {
+	// a flag / pflag Set is bound to one template by construction: no reuse
+	c.Extra, c.MainAt = nil, 0
+	return runSeq(c, c.Source+" Set", flagStep)
+}
+
+func flagStep(c TypesCase) (o typesOutcome, dv *vrt.Verdict) {
 	_, pt, tmpl, dv := buildCase(c)
 	if dv != nil {
-		return *dv
+		return o, dv
 	}
-	var o typesOutcome
 	leaves, nerr := flatLeaves(pt, c.Source)
 	if nerr != nil {
 		o.labels = append(o.labels, "names-unavailable")
@@ -550,7 +642,7 @@ func runTypesFlag(c TypesCase) vrt.Verdict {
 	if o.viol == nil && !o.isErr && countSet(got) >= o.fed && o.fed > 0 {
 		o.labels = append(o.labels, "all-fed-arrived")
 	}
-	return finish(c, o)
+	return o, nil
 }
 
 // ---- decoders ----------------------------------------------------------------------
@@ -640,11 +732,9 @@ func chainManglers(chain string) []transform.Mangler {
 }
 
 func runTypesDecoder(c TypesCase) vrt.Verdict {
-	_, pt, _, dv := buildCase(c)
-	if dv != nil {
-		return *dv
-	}
-	f := &feeder{ch: chooser{seed: c.Fill, salt: "feed", pct: c.SetPct}}
+	// ONE feeder, ONE real decoder value and ONE transforming decoder around
+	// them serve every call of the case
+	f := &feeder{}
 	switch c.Source {
 	case "json":
 		f.inner, f.marshal = &jsondec.Decoder{}, marshalJSON
@@ -665,10 +755,19 @@ func runTypesDecoder(c TypesCase) vrt.Verdict {
 	if ms := chainManglers(c.Chain); len(ms) > 0 && c.Chain != "yaml-flatten" {
 		dec = sourcewrap.NewTransformingDecoder(f, ms...)
 	}
+	return runSeq(c, c.Source+" decoder value (chain "+c.Chain+")", func(sc TypesCase) (typesOutcome, *vrt.Verdict) { return decoderStep(f, dec, sc) })
+}
+
+func decoderStep(f *feeder, dec dials.Decoder, c TypesCase) (o typesOutcome, dv *vrt.Verdict) {
+	_, pt, _, dv := buildCase(c)
+	if dv != nil {
+		return o, dv
+	}
+	f.ch = chooser{seed: c.Fill, salt: "feed", pct: c.SetPct}
+	f.text, f.fed, f.nils, f.encErr = nil, 0, 0, nil
 	var got reflect.Value
 	var err error
 	pi, hung := guard(fmt.Sprintf("%s decoder (chain %s) on %s", c.Source, c.Chain, pt), func() { got, err = dec.Decode(strings.NewReader(""), dials.NewType(pt)) })
-	var o typesOutcome
 	o.fed = f.fed
 	what := fmt.Sprintf("%s decoder (chain %s) on %s with input %q", c.Source, c.Chain, pt, clipBytes(f.text))
 	o.viol, o.isErr = judge(what, pi, hung, got, err, pt)
@@ -682,7 +781,7 @@ func runTypesDecoder(c TypesCase) vrt.Verdict {
 	if o.viol == nil && !o.isErr && countSet(got) > 0 {
 		o.labels = append(o.labels, "fields-arrived")
 	}
-	return finish(c, o)
+	return o, nil
 }
 
 // ---- mangler chains on their own ----------------------------------------------------
@@ -725,17 +824,21 @@ func fillStringCast(mv reflect.Value, pt reflect.Type, c chooser) int {
 }
 
 func runTypesManglers(c TypesCase) vrt.Verdict {
-	_, pt, _, dv := buildCase(c)
-	if dv != nil {
-		return *dv
-	}
+	// the mangler VALUES are shared by the transformers of every call
 	ms := chainManglers(c.Chain)
 	if ms == nil {
 		return vrt.Discardf("unknown chain %q", c.Chain)
 	}
+	return runSeq(c, "mangler values (chain "+c.Chain+")", func(sc TypesCase) (typesOutcome, *vrt.Verdict) { return manglerStep(ms, sc) })
+}
+
+func manglerStep(ms []transform.Mangler, c TypesCase) (o typesOutcome, dv *vrt.Verdict) {
+	_, pt, _, dv := buildCase(c)
+	if dv != nil {
+		return o, dv
+	}
 	var got reflect.Value
 	var err error
-	var o typesOutcome
 	stage := "Translate"
 	pi, hung := guard(fmt.Sprintf("mangler chain %s on %s", c.Chain, pt), func() {
 		tf := transform.NewTransformer(pt, ms...)
@@ -761,7 +864,7 @@ func runTypesManglers(c TypesCase) vrt.Verdict {
 	if o.viol == nil && !o.isErr && countSet(got) > 0 {
 		o.labels = append(o.labels, "fields-arrived")
 	}
-	return finish(c, o)
+	return o, nil
 }
 
 // ---- generators and tests -------------------------------------------------------------
@@ -787,6 +890,28 @@ func genTypes(sources []string, chains []string) func(t *rapid.T) TypesCase {
 			s := shape.Gen(t, typesProfile(c.Source, behind))
 			c.Shape = makeFlatDistinct(s)
 		}
+		if c.Source != "flag" && c.Source != "pflag" && rapid.Bool().Draw(t, "reuse") {
+			// object reuse: 1..2 more config types through the same values
+			prof := typesProfile(c.Source, behind)
+			n := rapid.IntRange(1, 2).Draw(t, "reuse_n")
+			for i := 0; i < n; i++ {
+				kind := rapid.SampledFrom([]string{"retag", "retag", "retag", "retype", "other", "other"}).Draw(t, "reuse_kind")
+				if c.Compiled != "" {
+					kind = "other"
+				}
+				var es shape.Shape
+				switch kind {
+				case "retag":
+					es = retagShape(t, c.Shape)
+				case "retype":
+					es = retypeShape(t, c.Shape, prof.LeafTypes)
+				default:
+					es = makeFlatDistinct(shape.Gen(t, prof))
+				}
+				c.Extra = append(c.Extra, ExtraType{Kind: kind, Shape: es})
+			}
+			c.MainAt = rapid.IntRange(0, n).Draw(t, "main_at")
+		}
 		c.Fill = rapid.Uint64Range(1, 1<<48).Draw(t, "fill")
 		c.SetPct = rapid.SampledFrom([]int{100, 100, 70, 70, 40, 0}).Draw(t, "set_pct")
 		c.DefPct = rapid.SampledFrom([]int{0, 50, 100}).Draw(t, "def_pct")
@@ -794,13 +919,116 @@ func genTypes(sources []string, chains []string) func(t *rapid.T) TypesCase {
 	}
 }
 
+func cloneShape(s shape.Shape) shape.Shape {
+	var out shape.Shape
+	b, _ := json.Marshal(s)
+	_ = json.Unmarshal(b, &out)
+	return out
+}
+
+// retagShape returns the shape with the same field names and types but other
+// struct tags (dials, dialsenv, format tags, none) on at least one field: Go
+// considers the two struct types convertible, dials must not confuse them.
+func retagShape(t *rapid.T, s shape.Shape) shape.Shape {
+	c := cloneShape(s)
+	n := 0
+	var first *shape.Field
+	changed := false
+	var walk func(fs []shape.Field)
+	walk = func(fs []shape.Field) {
+		for i := range fs {
+			f := &fs[i]
+			if f.Kind == "skip" || f.Kind == "embed" || f.Kind == "pembed" {
+				continue
+			}
+			n++
+			if first == nil {
+				first = f
+			}
+			words := strings.Join(f.Words, "_")
+			if words == "" {
+				words = strings.ToLower(f.Name)
+			}
+			old := f.Tag
+			k := rapid.IntRange(0, 5).Draw(t, "retag_kind")
+			if f.Kind != "leaf" && k == 2 {
+				k = 1 // dialsenv only on leaves
+			}
+			switch k {
+			case 0:
+				f.Tag = ""
+			case 1:
+				f.Tag = fmt.Sprintf(`dials:"%s_r%d"`, words, n)
+			case 2:
+				f.Tag = fmt.Sprintf(`dialsenv:"R%d_%s"`, n, strings.ToUpper(words))
+			case 3:
+				f.Tag = fmt.Sprintf(`json:"j%d_%s" yaml:"y%d_%s" toml:"t%d_%s"`, n, words, n, words, n, words)
+			case 4:
+				f.Tag = fmt.Sprintf(`dials:"%s_r%d" dialsdesc:"retagged"`, words, n)
+			}
+			if f.Tag != old {
+				changed = true
+			}
+			if f.Kind == "struct" || f.Kind == "pstruct" {
+				walk(f.Fields)
+			}
+		}
+	}
+	walk(c.Fields)
+	if !changed && first != nil {
+		first.Tag = fmt.Sprintf(`dials:"%s_only_tag_differs"`, strings.ToLower(first.Name))
+	}
+	return c
+}
+
+// retypeShape returns the shape with the same names but other leaf types on
+// about half of the leaves (at least one).
+func retypeShape(t *rapid.T, s shape.Shape, leafTypes []string) shape.Shape {
+	c := cloneShape(s)
+	var first *shape.Field
+	changed := false
+	var walk func(fs []shape.Field)
+	walk = func(fs []shape.Field) {
+		for i := range fs {
+			f := &fs[i]
+			switch f.Kind {
+			case "leaf":
+				if first == nil {
+					first = f
+				}
+				if rapid.Bool().Draw(t, "retype") {
+					nt := rapid.SampledFrom(leafTypes).Draw(t, "retype_to")
+					if nt != f.Type {
+						f.Type, changed = nt, true
+					}
+				}
+			case "struct", "pstruct":
+				walk(f.Fields)
+			}
+		}
+	}
+	walk(c.Fields)
+	if !changed && first != nil {
+		if first.Type != "Names" {
+			first.Type = "Names"
+		} else {
+			first.Type = "Level"
+		}
+	}
+	return c
+}
+
 const typesRuleCommon = "config struct types from the shape grammar restricted to NAMED leaves: named scalars (Level, Count, Ratio, Flag, Name, Timeout, Color, Phase, Tiny, Big), named slices / maps / sets, " +
 	"slices and maps whose element or key type is named, user-declared pointers to those (and to slices / maps, and pointers to pointers), collections of collections, text-unmarshalable leaves, a few predeclared leaves for contrast; " +
 	"nested, pointer-to-struct and embedded structs (EmbNamed, EmbPtr, EmbDeep, EmbA, EmbB, and EmbSlices / EmbSlicesTagged whose members are []Struct, [2]Struct, *Struct, map[string]Struct, []*Struct of a small dials-tagged struct; by value and by pointer; the members are left unset in a good share of cases: set_pct is 100, 70, 40 or 0), skipped fields in any position, occasional dials / dialsalias tags; depth<=2, <=6 fields per struct; root fields are renamed until all flattened leaf names are distinct. " +
-	"One case in six uses, instead of a generated shape, one of 7 COMPILED config types with embedded shapes reflect.StructOf cannot build: time.Time embedded between ordinary fields, *Stamp embedded next to a method-less embedded struct, embedded structs with ordinary value / pointer methods (by value and by pointer), nested named structs that embed time.Time / a struct with methods, slices / arrays / maps whose element struct embeds time.Time, a method-less struct or a struct with methods, and all of them at once; non-trivial for these = at least one leaf fed. "
+	"One case in six uses, instead of a generated shape, one of 7 COMPILED config types with embedded shapes reflect.StructOf cannot build: time.Time embedded between ordinary fields, *Stamp embedded next to a method-less embedded struct, embedded structs with ordinary value / pointer methods (by value and by pointer), nested named structs that embed time.Time / a struct with methods, slices / arrays / maps whose element struct embeds time.Time, a method-less struct or a struct with methods, and all of them at once; non-trivial for these = at least one leaf fed. " +
+	"OBJECT REUSE (env, the four decoders, the bare mangler chains; not the flag / pflag Sets, which are bound to one template): in half of the cases the SAME env.Source value / decoder value + transforming decoder / mangler values serve 2..3 calls in a row with different config types - " +
+	"the main type (at a drawn position) plus 1..2 extra types that are a RETAG of it (same field names and types, other dials / dialsenv / json / yaml / toml tags or none: Go calls the two struct types convertible), a RETYPE (same names, other leaf types) or an unrelated shape - " +
+	"and every call must return a value of exactly the type requested in THAT call, or an error. "
 
 var typesAssumptions = []string{
 	"flattened leaf names are distinct (the generator renames; a replayed case that violates this is discarded)",
+	"reusing one source / decoder value for several config types is legal use: nothing in the Source / Decoder contract binds a value to a type (the flag and pflag Sets, which take a template at construction, are excluded)",
 	"a panic of ptrify.Pointerify on the config type (the first thing dials.Config does) is reported as a violation keyed pointerify-panic",
 	"the config type holds no interface-typed fields",
 	"about a third of the pointer-typed elements inside fed slices, arrays and maps are nil (a null inside a list or map is valid input wherever the format can spell it; an encoder that cannot, e.g. TOML, makes the case trivial)",
